@@ -21,6 +21,7 @@ EXPLANATION = (
     "only on the branch where the number of sorted molecules equals the number of molecules of the searched side, the other branch "
     "records an issue; (A4) the per-condition parallel map is ordered and results are appended in iteration order."
     " (A5) the molecule list handed to the pair search has exactly one entry per '.'-component of the searched side (comprehension / loop without filter; no dict, set or fromkeys in between)."
+    ' (A7) a sort-based selection ranks by the total first; condition tables may be iterated through loop variables.'
 )
 ASSUMPTIONS = ["rdFMCS / RascalMCES return substructures of their inputs (not decided)"]
 
